@@ -133,7 +133,8 @@ class MinGenSet():
         if remove_complement_values:
             elements_to_remove = set()
             for val in self.numbers:
-                if total - val in self.numbers and total - val > val:
+                # The complement of a sub-multiset sum is again one only if every element is used at most once
+                if self.max_multiplicity == 1 and total - val in self.numbers and total - val > val:
                     elements_to_remove.add(total - val)
                 if val == total or val == 0:
                     elements_to_remove.add(val)
@@ -177,11 +178,14 @@ class MinGenSet():
                 var_type="integer"
             )
 
+        # With multiplicities, a product x * g can be as large as the number it contributes to (which may exceed `total`),
+        # and the integer product helper derives the bit width of x from this bound
+        pi_ub = self.total if self.max_multiplicity == 1 else max([self.total, self.max_multiplicity] + list(self.numbers))
         self.pi_vars = self.solver.add_variables(
             self.x_indexes, 
             name_prefix="pi", 
             lb=0, 
-            ub=self.total, 
+            ub=pi_ub, 
             var_type="integer" if self.weight_type == int else "continuous"
         )
 
@@ -218,7 +222,7 @@ class MinGenSet():
                             continuous_var=self.genset_vars[(i)],
                             product_var=self.pi_vars[(i, j)],
                             lb=0,
-                            ub=self.total,
+                            ub=pi_ub,
                             name=f"pi_i={i}_j={j}",
                         )
 
@@ -325,7 +329,8 @@ class MinGenSet():
 
             if self.solver.get_model_status() == "kOptimal":
                 genset_sol = self.solver.get_values(self.genset_vars)
-                self._solution = sorted(self.weight_type(genset_sol[i]) for i in range(k))
+                # Solver values of integer variables may be off by a tolerance (e.g. 6.9999999): round, do not truncate
+                self._solution = sorted((round(genset_sol[i]) if self.weight_type == int else float(genset_sol[i])) for i in range(k))
                 self._is_solved = True
                 self.solve_statistics = {
                     "solve_time": time.perf_counter() - start_time,
